@@ -156,6 +156,18 @@ def one_rule(ctx, R, probe, kw, meta):
                 if not (offs & set(spec.byeaster)):
                     ctx.violation('wrong-instant', case, '%s is not an Easter offset of any year' % d)
                     break
+            # days that are an Easter offset of their *own* year are defined whatever one thinks of offsets that leave the
+            # year: unless the library gave some cross-year day a meaning (it never does: its masks are per year), its
+            # output has to be the reference's, which reads every offset within the day's own year
+            cross = [x for x in real['items']
+                     if not (set(spec.byeaster) & {M.naive(x).date().toordinal() - RR.easter_western(M.naive(x).year).toordinal()})]
+            if not cross:
+                verdict = M.compare(kw, real, ref, hz)
+                ctx.count('weak_easter_rules_compared')
+                if verdict is not None and not classify(ctx, R, probe, kw, verdict):
+                    ctx.violation(verdict[0], case, verdict[1])
+                if ref:
+                    ctx.count('weak_easter_rules_with_occurrences')
         return
     verdict = M.compare(kw, real, ref, hz)
     if verdict is not None:
@@ -244,6 +256,22 @@ def run(ctx):
                         kw = dict(freq=freq, interval=interval, dtstart=st, count=5, **by)
                         one_rule(ctx, R, probe, kw, {'start_kind': 'naive'})
                         ctx.count('single_state_cycle_rules')
+        # directed: BYEASTER offsets that address the first days of January (1 January = Easter - 80 ... - 114) in weekly
+        # periods that begin in December, for every week start
+        k = 0
+        for y in (2000, 2004, 2007, 2010, 2018, 2023):
+            e = RR.easter_western(y + 1)
+            for jan in (1, 2, 3, 6):
+                off = D.date(y + 1, 1, jan).toordinal() - e.toordinal()
+                for wk in range(7):
+                    k += 1
+                    if k % ctx.nshards != ctx.shard:
+                        continue
+                    kw = dict(freq=R.WEEKLY, byeaster=[off], wkst=wk, dtstart=D.datetime(y, 12, 1, 8, 15), until=D.datetime(y + 1, 5, 31))
+                    one_rule(ctx, R, probe, kw, {'start_kind': 'naive'})
+                    kw = dict(freq=R.DAILY if k % 2 else R.YEARLY, byeaster=[off, 0], dtstart=D.datetime(y, 12, 1, 8, 15), count=4)
+                    one_rule(ctx, R, probe, kw, {'start_kind': 'naive'})
+                    ctx.count('january_easter_rules')
         # rules that can never match: ValueError or nothing, never a wrong instant
         for base in NEVER:
             for st in (D.datetime(1997, 9, 2, 9, 0, 0), D.datetime(2000, 2, 29, 1, 7, 30)):
@@ -300,6 +328,9 @@ def floors(agg, tier):
         out.append('only %d directed sub-daily day-jump rules' % c.get('subdaily_day_jump_rules', 0))
     if c.get('single_state_cycle_rules', 0) < 250:
         out.append('only %d directed single-state-cycle rules' % c.get('single_state_cycle_rules', 0))
+    if c.get('january_easter_rules', 0) < 150 or c.get('weak_easter_rules_with_occurrences', 0) < 100:
+        out.append('only %d directed January-Easter rules, %d rules with offsets outside [-80, 249] that have occurrences' % (
+            c.get('january_easter_rules', 0), c.get('weak_easter_rules_with_occurrences', 0)))
     if c.get('weekno_boundary_rules', 0) < 1500:
         out.append('only %d directed week-number rules' % c.get('weekno_boundary_rules', 0))
     if c.get('never_matching_rules', 0) < len(NEVER) * 2:
